@@ -139,3 +139,21 @@ theorem any_spills_toL (ts : List Tensor) :
   | cons t ts ih => simp [List.any_cons, spillsReal, ih]
 
 end J2O.C15
+
+namespace J2O.C15
+
+/-- the sidecar `place` produces is the old content followed by exactly the spilled payloads,
+    in order — nothing else -/
+theorem place_bytes (spills : Tensor → Bool) : ∀ (ts : List Tensor) (s : Bytes),
+    (place spills ts s).2 = s ++ (ts.filter spills).flatMap (fun t => t.data) := by
+  intro ts
+  induction ts with
+  | nil => intro s; simp [place]
+  | cons t ts ih =>
+    intro s
+    by_cases h : spills t = true
+    · simp [place, h, ih, List.filter_cons]
+    · have h' : spills t = false := by simpa using h
+      simp [place, h', ih, List.filter_cons]
+
+end J2O.C15
